@@ -15,6 +15,7 @@ CONSTANTS
   BugPtr = FALSE
   BugWait = FALSE
   BugListen = FALSE
+  Mut = ""
 VIEW View
 SYMMETRY Symm
 INVARIANT QuiescentAnnounced
